@@ -1,43 +1,31 @@
-/* Ghost data of the frame-level SLIP contracts and the macros used by the
- * loop invariants of contracts/rfc1055.loops (included *before* the real
- * source, because the invariants are inserted into it).  See
- * contracts/rfc1055-frame.h for the meaning. */
+/* Macros used by the loop invariants of contracts/rfc1055.loops (included
+ * *before* the real source, because the invariants are inserted into it).
+ * Ghost state: stubs/rfc1055_io.h. */
 #ifndef CONTRACTS_RFC1055_INV_H
 #define CONTRACTS_RFC1055_INV_H
 
-/* offset map off[0..n] of the payload (encode: payload = rest of the source
- * stream; decode in frame mode: payload g_sl_pay[0..g_sl_n)) */
-extern const size_t *g_sl_off;
-/* decode, frame mode: the source stream continues with
- *   [g_sl_g octets != END, END]   when entered in SEARCH_FOR_END
- *   [END]                         start delimiter, start-of-frame mode unless entered in NORMAL
- *   esc(g_sl_pay[0]) .. esc(g_sl_pay[g_sl_n - 1]) END */
-extern _Bool g_sl_fm;
-extern const unsigned char *g_sl_pay;
-extern size_t g_sl_n, g_sl_g;
-
 #define SLI_SOF(ctx) ((((ctx)->flags) & RFC1055_WITH_SOF) != 0)
-
-/* ---- rfc1055_encode, loop 0 ---- */
-#define SLI_E_P0 __CPROVER_loop_entry(g_sl_src_pos)
-#define SLI_E_I ((size_t)(g_sl_src_pos - SLI_E_P0))
-#define SLI_E_Q1 __CPROVER_loop_entry(g_sl_snk_pos)
-#define SLI_E_R ((size_t)(g_sl_snk_pos - SLI_E_Q1))
-#define SLI_E_O ((size_t)(g_sl_obs - SLI_E_Q1))
-#define SLI_E_PAY(k) (g_sl_src[SLI_E_P0 + (k)])
-
-/* ---- rfc1055_decode, loop 0 ---- */
-#define SLI_D_P0 __CPROVER_loop_entry(g_sl_src_pos)
-#define SLI_D_C ((size_t)(g_sl_src_pos - SLI_D_P0))
-#define SLI_D_Q0 __CPROVER_loop_entry(g_sl_snk_pos)
-#define SLI_D_R ((size_t)(g_sl_snk_pos - SLI_D_Q0))
-#define SLI_D_O ((size_t)(g_sl_obs - SLI_D_Q0))
-#define SLI_D_ST0 __CPROVER_loop_entry(ctx->state)
-/* octets in front of the encoded payload, as a function of the state at entry */
-#define SL_SKIP(st0) ((st0) == RFC1055_SEARCH_FOR_END ? g_sl_g + 1 : (size_t)0)
-#define SL_START(st0, sof) (((sof) && (st0) != RFC1055_NORMAL) ? (size_t)1 : (size_t)0)
-#define SL_PRE(st0, sof) (SL_SKIP(st0) + SL_START(st0, sof))
 #define SL_AFTER_END(sof) ((sof) ? RFC1055_SEARCH_FOR_START : RFC1055_NORMAL)
-#define SL_LAST (g_sl_src[g_sl_src_pos - 1])
+
+/* ---- rfc1055_encode, loop 0: I payload octets taken from the source, R
+ * octets received by the sink since the loop was entered ---- */
+#define SLI_E_I ((size_t)(g_sl_src_pos - __CPROVER_loop_entry(g_sl_src_pos)))
+#define SLI_E_R ((size_t)(g_sl_snk_pos - __CPROVER_loop_entry(g_sl_snk_pos)))
+#define SLI_E_O ((size_t)(g_sl_obs - __CPROVER_loop_entry(g_sl_snk_pos)))
+
+/* ---- rfc1055_decode, loop 0: C octets consumed, R octets emitted ---- */
+#define SLI_D_C ((size_t)(g_sl_src_pos - __CPROVER_loop_entry(g_sl_src_pos)))
+#define SLI_D_R ((size_t)(g_sl_snk_pos - __CPROVER_loop_entry(g_sl_snk_pos)))
+#define SLI_D_O ((size_t)(g_sl_obs - __CPROVER_loop_entry(g_sl_snk_pos)))
+
+/* generator mode: an upper bound of the octets the generator can still deliver */
+#define SLI_D_GEN_LEFT ((SL_GN_PRE - g_gn_c) + 2 * (g_gn_n - g_gn_i) - g_gn_s + (g_gn_done ? (size_t)0 : (size_t)1))
+/* generator mode: the layout of the generated stream matches the decoder
+ * state at entry, and the generator is at its beginning */
+#define SL_FRAME_LAYOUT(st0, sof) (!((st0) == RFC1055_SEARCH_FOR_START && !(sof)) \
+  && g_gn_skip == ((st0) == RFC1055_SEARCH_FOR_END) && g_gn_start == ((sof) && (st0) != RFC1055_NORMAL))
+#define SL_FRAME_AT_ENTRY_LE(ctx) (SL_FRAME_LAYOUT(__CPROVER_loop_entry(ctx->state), SLI_SOF(ctx)) \
+  && __CPROVER_loop_entry(g_gn_c) == 0 && __CPROVER_loop_entry(g_gn_i) == 0 && __CPROVER_loop_entry(g_gn_s) == 0 \
+  && !__CPROVER_loop_entry(g_gn_done))
 
 #endif
